@@ -369,6 +369,9 @@ class Interp:
             if nm == "index":
                 raise PyRaise(ValueError("value is not in list"))
             return hits
+        if type(s) is dict and nm == "get" and args and has_sym(args[0]) and not kwargs:
+            hit = _m.dict_lookup_symbolic(self, s, args[0])
+            return hit if hit is not _m._NOHIT else (args[1] if len(args) > 1 else None)
         if type(s) is dict and nm in ("get", "setdefault", "pop", "items", "keys", "values", "copy", "clear", "update"):
             if _m.SYMKEYS in s:
                 raise OutOfSubset(f"dict.{nm} on a dict with symbolic keys")
